@@ -30,6 +30,7 @@ func init() {
 type spelling struct {
 	Kind string
 	Arg  func(base, rel string) string // rel is "dir" or "file" relative to the cwd (=base)
+	Chdir bool                         // the watched directory itself is the cwd (argument cleans to ".")
 	Link string                        // if set: create this symlink (relative to cwd) first, to Target
 	Tgt  func(base, rel string) string
 }
@@ -48,6 +49,9 @@ var spellings = []spelling{
 	{Kind: "rel-symlink-dot-slash", Arg: func(b, r string) string { return "./lnS/" }, Link: "lnS", Tgt: func(b, r string) string { return "./" + r }},
 	{Kind: "symlink-in-subdir", Arg: func(b, r string) string { return "other/lnO" }, Link: "other/lnO", Tgt: func(b, r string) string { return "../" + r }},
 	{Kind: "symlink-chain", Arg: func(b, r string) string { return "lnC2" }, Link: "lnC2", Tgt: func(b, r string) string { return "lnC1" }},
+	{Kind: "dot", Arg: func(b, r string) string { return "." }, Chdir: true},
+	{Kind: "dot-slash-only", Arg: func(b, r string) string { return "./" }, Chdir: true},
+	{Kind: "sub-dotdot", Arg: func(b, r string) string { return "inner/.." }, Chdir: true},
 	{Kind: "abs-parent-symlink", Arg: func(b, r string) string { return filepath.Join(b, "lnP", r) }, Link: "lnP", Tgt: func(b, r string) string { return "." }},
 }
 
@@ -105,6 +109,11 @@ func c08Case(c *core.Ctx, rng *rand.Rand, dir string, sp spelling, idx int) {
 		return arg, true
 	}
 	c.Hist("spellings", sp.Kind, 1)
+	D := filepath.Join(base, "dir") // primitives always use absolute paths; only the Add argument is spelled
+	if sp.Chdir {
+		os.Mkdir(filepath.Join(D, "inner"), 0o755)
+		os.Chdir(D)
+	}
 	dirArg, ok := add("dir")
 	if !ok {
 		c08Hang(c, &rep)
@@ -113,6 +122,22 @@ func c08Case(c *core.Ctx, rng *rand.Rand, dir string, sp spelling, idx int) {
 	dclean := filepath.Clean(dirArg)
 	// alias: add the same directory again under other spellings; the first one must keep naming events
 	aliases := []string{filepath.Join(base, "dir"), "dir", "./dir/", "lnC1"}
+	if sp.Chdir {
+		aliases = []string{filepath.Join(base, "dir"), filepath.Join(base, "lnC1"), "../dir"}
+	}
+	// re-pointed alias: a link first added while it names ANOTHER directory, then retargeted to the
+	// watched one and added again: the first spelling of the watched directory must keep naming its events
+	if rng.Intn(2) == 0 {
+		l2 := filepath.Join(base, "lnRepoint")
+		os.Symlink(filepath.Join(base, "other"), l2)
+		if err := s.AddStrict(&rep, l2); err == nil {
+			os.Remove(l2)
+			os.Symlink(D, l2)
+			s.AddStrict(&rep, l2)
+			c.Count("alias_cases", 1)
+			c.Count("repointed_alias_cases", 1)
+		}
+	}
 	nAlias := rng.Intn(3)
 	for k := 0; k < nAlias; k++ {
 		a := aliases[rng.Intn(len(aliases))]
@@ -153,7 +178,7 @@ func c08Case(c *core.Ctx, rng *rand.Rand, dir string, sp spelling, idx int) {
 	}
 	sincePause := 0
 	for _, nm := range names {
-		p := "dir/" + nm
+		p := D + "/" + nm
 		if pauseLen > 0 && sincePause == 0 {
 			s.Pause(true)
 		}
@@ -175,7 +200,7 @@ func c08Case(c *core.Ctx, rng *rand.Rand, dir string, sp spelling, idx int) {
 	s.Sync(&rep, true)
 	// file watch: Name must be the cleaned argument itself
 	fileArg, ok := "", false
-	if sp.Kind != "trailing-slash" && sp.Kind != "dot-inside-abs" && sp.Kind != "rel-symlink-dot-slash" {
+	if sp.Kind != "trailing-slash" && sp.Kind != "dot-inside-abs" && sp.Kind != "rel-symlink-dot-slash" && !sp.Chdir {
 		fileArg, ok = add("file")
 	}
 	if ok {
